@@ -67,6 +67,10 @@ def run(ctx):
             aj = load_jsonl(os.path.join(ctx.work, "acases.jsonl"))
             ej = load_jsonl(os.path.join(ctx.work, "ecases.jsonl"))
             lj = load_jsonl(os.path.join(ctx.work, "lcases.jsonl"))
+            for rc_ in meta.get("e2e_refused") or []:
+                ctx.violation("e2e-binary-refuses-valid-rules", dict(rc_, kind="e2e"), True,
+                              "the real binary exits at start-up when given these valid rules through %s: %s"
+                              % (rc_.get("observed_at"), json.dumps(rc_)[:300]))
             if meta.get("e2e_error"):
                 ob_failed.append("end-to-end run failed: " + meta["e2e_error"])
             for shard in meta["shards"]:
@@ -93,7 +97,7 @@ def run(ctx):
     # end-to-end cases are keyed by message kind (call site), so a known finding on one
     # kind does not hide a violation on another
     streams = [("pcases", "parser", None), ("acases", "applier", None), ("lcases", "rule-list", None)]
-    streams += [("ecases", "e2e-" + k, k) for k in ("ReqPlain", "ReqConnect", "RespPlain", "RespConnect")]
+    streams += [("ecases", "e2e-" + k, k) for k in ("ReqPlain", "ReqConnect", "ReqConnectOwn", "RespPlain", "RespConnect")]
     for kind, label, sub in streams:
         pb = [kc for kc in prop_bad if kc[0] == kind and (sub is None or kc[1].get("kind") == sub)]
         mb = [kc for kc in model_bad if kc[0] == kind and (sub is None or kc[1].get("kind") == sub)]
